@@ -140,7 +140,7 @@ def check(run):
                     run.sample({'params': params, 'events_around_stop': E.to_model_events(c.trace[max(0, i - 5):i + 4]), 'results': {str(k): list(v) for k, v in c.results.items()}})
             core.rm_rf(scratch)
             os.makedirs(scratch, exist_ok=True)
-        process_mode(run, rng, 2 if quick else 18)
+        process_mode(run, rng, 3 if quick else 18)
         if drv is not None and run.corr_disagreements == 0:
             run.obligation('trace validation: %d real histories with stop requests (%d events) accepted by the Lean model' % (run.counts.get('traces_validated', 0), run.counts.get('trace_events_validated', 0)), True)
     finally:
@@ -152,6 +152,7 @@ def check(run):
 def process_mode(run, rng, n):
     from jugverif import procmode
     procmode.stop_family(run, rng, n=n)
+    procmode.exit_condition_family(run, ['stop-file-default', 'stop-file-env', 'stop-file-default-with-env', 'max-tasks', 'max-time'])
 
 
 def replay(path):
@@ -161,7 +162,7 @@ def replay(path):
         import signal
         from jugverif import procmode
         p = d['replay']['params']
-        obs = procmode.signal_case(p.get('n', 4), p['k'], signal.Signals(p['sig']), p.get('args', []))
+        obs = procmode.signal_case(p.get('n', 4), p['k'], signal.Signals(p['sig']), p.get('args', []), repeat=p.get('repeat', False))
         run = core.Run('C12', 'quick')
         procmode.judge_stop(run, obs, p)
         print({k: v for k, v in obs.items() if k not in ('calls', 'calls_before')})
